@@ -1163,6 +1163,20 @@ impl HttpContext {
 
         if self.method == Some(Method::Head) {
             response.parsing_phase = kawa::ParsingPhase::Terminated;
+        } else if response.body_size == kawa::BodySize::Empty
+            && matches!(
+                response.detached.status_line,
+                kawa::StatusLine::Response {
+                    version: kawa::Version::V10 | kawa::Version::V11,
+                    ..
+                }
+            )
+        {
+            // RFC 9112 §6.3: an HTTP/1.x response with neither Transfer-Encoding
+            // nor Content-Length ends when the backend closes the connection,
+            // whether or not it announced it with `Connection: close` (an
+            // HTTP/1.0 backend does not). That connection cannot be kept alive.
+            self.keep_alive_backend = false;
         }
 
         // If found:
